@@ -296,15 +296,37 @@ def types_cases():
     for n in (1, 2, 3):
         for objkind in ("type", "class"):
             for where in ("inside", "outside"):
-                yield (n, objkind, where)
+                for clash in (False, True):
+                    for ctor in (None, "before", "after"):
+                        yield (n, objkind, where, clash, ctor)
 
 
 def build_types(p):
-    n, objkind, where = p
+    # clash: the component of type wt is itself named wt (legal: component names live in the type's own scope), next to
+    # a second component of that type -- the *type* name must still be found from inside the derived type
+    # ctor: generic interfaces named like the types wt and t1 (the constructor idiom), before or after the type definition
+    n, objkind, where, clash, ctor = p
+    w = "wt" if clash else "w"
     ws = Workspace()
     f = ws.file("tmod.f90")
     f.add("module tmod")
     f.add("  implicit none")
+    def ctor_interfaces():
+        for t in ("wt", "t1"):
+            f.add(f"  interface {t}")
+            f.add(f"    module procedure {t}_new")
+            f.add(f"  end interface {t}")
+
+    def ctor_functions():
+        for t in ("wt", "t1"):
+            f.add(f"  function {t}_new(a) result(r)")
+            f.add("    integer, intent(in) :: a")
+            f.add(f"    type({t}) :: r")
+            f.add("    r%", U("wc" if t == "wt" else "c1", f"{t}::" + ("wc" if t == "wt" else "c1")), " = a")
+            f.add(f"  end function {t}_new")
+
+    if ctor == "before":
+        ctor_interfaces()
     f.add("  type :: wt")
     f.add("    integer :: ", D("wc", "wt::wc"))
     f.add("  end type wt")
@@ -312,8 +334,13 @@ def build_types(p):
         f.add(f"  type{', extends(t' + str(i - 1) + ')' if i > 1 else ''} :: t{i}")
         f.add("    integer :: ", D(f"c{i}", f"t{i}::c{i}"))
         if i == 1:
-            f.add("    type(wt) :: ", D("w", "t1::w"))
+            f.add("    type(wt) :: ", D(w, "t1::w"))
+            f.add("    type(wt) :: ", D("wa", "t1::wa"), "(2)")
+        if i == n and n > 1:
+            f.add("    type(wt) :: ", D("wl", "tn::wl"))
         f.add(f"  end type t{i}")
+    if ctor == "after":
+        ctor_interfaces()
     decl = f"type(t{n}) :: v" if objkind == "type" else f"class(t{n}), allocatable :: v"
 
     def body(g, ind):
@@ -323,16 +350,24 @@ def build_types(p):
         for i in range(1, n + 1):
             g.add(ind + "v%", U(f"c{i}", f"t{i}::c{i}"), " = 1")
             g.add(ind + "k = va(2)%", U(f"c{i}", f"t{i}::c{i}"))
-        g.add(ind + "v%", U("w", "t1::w"), "%", U("wc", "wt::wc"), " = 2")
-        g.add(ind + "k = va(1)%", U("w", "t1::w"), "%", U("wc", "wt::wc"), " + v%", U("c1", "t1::c1"))
+        g.add(ind + "v%", U(w, "t1::w"), "%", U("wc", "wt::wc"), " = 2")
+        g.add(ind + "k = va(1)%", U(w, "t1::w"), "%", U("wc", "wt::wc"), " + v%", U("c1", "t1::c1"))
+        g.add(ind + "k = v%", U("wa", "t1::wa"), "(2)%", U("wc", "wt::wc"), " + va(3)%", U("wa", "t1::wa"), "(k)%", U("wc", "wt::wc"))
+        if n > 1:
+            g.add(ind + "k = v%", U("wl", "tn::wl"), "%", U("wc", "wt::wc"))
 
     if where == "inside":
         f.add("contains")
         f.add("  subroutine tuse()")
         body(f, "    ")
         f.add("  end subroutine tuse")
+        if ctor:
+            ctor_functions()
         f.add("end module tmod")
     else:
+        if ctor:
+            f.add("contains")
+            ctor_functions()
         f.add("end module tmod")
         g = ws.file("tuser.f90")
         g.add("program tuser")
